@@ -8,6 +8,8 @@ semantics for the analysed code (evaluation order and the number of evaluations 
   C2b if a != b: A else: B              -> if a == b: B else: A   (likewise for `is not`, `not in`)
   C3  t = e ; return t                  -> return e           when t is a local assigned exactly once and read exactly once
   C4  not not c  in a test position     -> c
+  C6  'lit' == x                        -> x == 'lit'         (likewise !=)
+  C7  isinstance(x, A) or isinstance(x, B) -> isinstance(x, (A, B))
   C5  t = X ; S(t)                      -> S(X)               when t is a single-assignment, single-use local read first in S
 
 Positions of the surviving nodes are kept (reports still point into the file); a rewritten node takes the position of the
@@ -29,7 +31,43 @@ def _neg_compare(e: ast.expr):
     return None
 
 
+def _is_isinstance(e: ast.AST) -> bool:
+    return isinstance(e, ast.Call) and isinstance(e.func, ast.Name) and e.func.id == "isinstance" and len(e.args) == 2 and not e.keywords
+
+
+def _pure_chain(e: ast.AST) -> bool:
+    while isinstance(e, ast.Attribute):
+        e = e.value
+    return isinstance(e, ast.Name)
+
+
 class _Canon(ast.NodeTransformer):
+    def visit_Compare(self, node: ast.Compare):
+        self.generic_visit(node)
+        # C6: a literal on the left of == / != moves to the right ('PEM' == x  ->  x == 'PEM')
+        if len(node.ops) == 1 and isinstance(node.ops[0], (ast.Eq, ast.NotEq)) and isinstance(node.left, ast.Constant) and not isinstance(node.comparators[0], ast.Constant):
+            node.left, node.comparators = node.comparators[0], [node.left]
+        return node
+
+    def visit_BoolOp(self, node: ast.BoolOp):
+        self.generic_visit(node)
+        # C7: isinstance(x, A) or isinstance(x, B)  ->  isinstance(x, (A, B))   (x a plain name / attribute chain)
+        if isinstance(node.op, ast.Or):
+            out: List[ast.expr] = []
+            for v in node.values:
+                prev = out[-1] if out else None
+                if _is_isinstance(v) and prev is not None and _is_isinstance(prev) and ast.dump(v.args[0]) == ast.dump(prev.args[0]) and _pure_chain(v.args[0]):
+                    a = list(prev.args[1].elts) if isinstance(prev.args[1], ast.Tuple) else [prev.args[1]]
+                    b = list(v.args[1].elts) if isinstance(v.args[1], ast.Tuple) else [v.args[1]]
+                    merged = ast.Call(func=prev.func, args=[prev.args[0], ast.Tuple(elts=a + b, ctx=ast.Load())], keywords=[])
+                    out[-1] = ast.copy_location(merged, prev)
+                else:
+                    out.append(v)
+            if len(out) == 1:
+                return out[0]
+            node.values = out
+        return node
+
     def visit_UnaryOp(self, node: ast.UnaryOp):
         self.generic_visit(node)
         r = _neg_compare(node)
